@@ -217,6 +217,69 @@ def extract(tree):
         raise ExtractError("print_jdn_one: symbol/keyword refusal not recognised")
     if not re.search(r"if\s*\(\s*isnan\s*\(num\)\s*\)\s*return\s+1\s*;\s*if\s*\(\s*isinf\s*\(num\)\s*\)\s*return\s+1\s*;", body):
         raise ExtractError("print_jdn_one: nan/inf refusal not recognised")
+    # ---- print_jdn_one: delimiters, separators, depth budget (the model PP/Jdn.lean hard-codes them; Props.C11.jdn_printer_shape pins them)
+    jb = norm(body.replace("' '", "'SP'"))
+
+    def ch(tok):
+        return 32 if tok == "SP" else cchar("'" + tok + "'")
+    C = r"'(SP|\\.|[^'])'"
+    m = re.search(r"caseJANET_TUPLE:\{JanetTuplet=janet_unwrap_tuple\(x\);intisb=janet_tuple_flag\(t\)&JANET_TUPLE_FLAG_BRACKETCTOR;"
+                  r"janet_buffer_push_u8\(S->buffer,isb\?" + C + ":" + C + r"\);for\(int32_ti=0;i<janet_tuple_length\(t\);i\+\+\)\{"
+                  r"if\(i\)janet_buffer_push_u8\(S->buffer," + C + r"\);if\(print_jdn_one\(S,t\[i\],depth-1\)\)return1;\}"
+                  r"janet_buffer_push_u8\(S->buffer,isb\?" + C + ":" + C + r"\);\}break;", jb)
+    if not m:
+        raise ExtractError("print_jdn_one: tuple case not recognised")
+    c["ppTupleBracket"] = (ch(m.group(1)), ch(m.group(4)))
+    c["ppTupleParen"] = (ch(m.group(2)), ch(m.group(5)))
+    seps = {ch(m.group(3))}
+    m = re.search(r"caseJANET_ARRAY:\{janet_table_put\(&S->seen,x,janet_wrap_true\(\)\);JanetArray\*a=janet_unwrap_array\(x\);"
+                  r"janet_buffer_push_cstring\(S->buffer,\"([^\"]*)\"\);for\(int32_ti=0;i<a->count;i\+\+\)\{"
+                  r"if\(i\)janet_buffer_push_u8\(S->buffer," + C + r"\);if\(print_jdn_one\(S,a->data\[i\],depth-1\)\)return1;\}"
+                  r"janet_buffer_push_u8\(S->buffer," + C + r"\);\}break;", jb)
+    if not m:
+        raise ExtractError("print_jdn_one: array case not recognised")
+    c["ppArrayOpen"] = [ord(x) for x in m.group(1)]
+    c["ppArrayClose"] = ch(m.group(3))
+    seps.add(ch(m.group(2)))
+
+    def dict_case(label, head, cap, opener_rx):
+        mm = re.search(r"case" + label + r":\{" + head + opener_rx + r"intisFirst=1;for\(int32_ti=0;i<" + cap + r";i\+\+\)\{"
+                       r"constJanetKV\*kv=\w+(?:->data)?\+i;if\(janet_checktype\(kv->key,JANET_NIL\)\)continue;"
+                       r"if\(!isFirst\)janet_buffer_push_u8\(S->buffer," + C + r"\);isFirst=0;"
+                       r"if\(print_jdn_one\(S,kv->key,depth-1\)\)return1;janet_buffer_push_u8\(S->buffer," + C + r"\);"
+                       r"if\(print_jdn_one\(S,kv->value,depth-1\)\)return1;\}janet_buffer_push_u8\(S->buffer," + C + r"\);\}break;", jb)
+        if not mm:
+            raise ExtractError("print_jdn_one: %s case not recognised" % label)
+        return mm
+    m = dict_case("JANET_TABLE", r"janet_table_put\(&S->seen,x,janet_wrap_true\(\)\);JanetTable\*tab=janet_unwrap_table\(x\);", r"tab->capacity",
+                  r"janet_buffer_push_cstring\(S->buffer,\"([^\"]*)\"\);")
+    c["ppTableOpen"] = [ord(x) for x in m.group(1)]
+    seps.add(ch(m.group(2)))
+    kvsep = {ch(m.group(3))}
+    closes = {ch(m.group(4))}
+    m = dict_case("JANET_STRUCT", r"JanetStructst=janet_unwrap_struct\(x\);", r"janet_struct_capacity\(st\)", r"janet_buffer_push_u8\(S->buffer," + C + r"\);")
+    c["ppStructOpen"] = [ch(m.group(1))]
+    seps.add(ch(m.group(2)))
+    kvsep.add(ch(m.group(3)))
+    closes.add(ch(m.group(4)))
+    if len(seps) != 1 or len(kvsep) != 1 or len(closes) != 1:
+        raise ExtractError("print_jdn_one: separators differ between cases: %r %r %r" % (seps, kvsep, closes))
+    c["ppItemSep"], c["ppKvSep"], c["ppDictClose"] = seps.pop(), kvsep.pop(), closes.pop()
+    if not jb.startswith("{if(depth==0)return1;switch(janet_type(x)){"):
+        raise ExtractError("print_jdn_one: `if (depth == 0) return 1;` guard not recognised")
+    if jb.count("depth-1") != 6 or len(re.findall(r"print_jdn_one\(S,[^;]*?,depth(?!-1)", jb)):
+        raise ExtractError("print_jdn_one: recursive calls do not all pass depth - 1")
+    if not jb.endswith("default:return1;}return0;}"):
+        raise ExtractError("print_jdn_one: default case (refuse) / return 0 not recognised")
+    njdn = len(re.findall(r"intdepth=atoi\(precision\);if\(depth<1\)depth=JANET_RECURSION_GUARD;janet_jdn_\(b,depth,", norm(pp)))
+    if njdn != 2:
+        raise ExtractError("%%j: default depth JANET_RECURSION_GUARD not recognised (%d sites)" % njdn)
+    m = re.search(r"#define\s+JANET_RECURSION_GUARD\s+(\d+)", hdr)
+    if not m:
+        raise ExtractError("JANET_RECURSION_GUARD not found in janet.h")
+    c["jdnDefaultDepth"] = int(m.group(1))
+    if not re.search(r"intres=print_jdn_one\(&S,x,depth\);janet_table_deinit\(&S\.seen\);if\(res\)\{janet_panic\(\"couldnotprinttojdnformat\"\);\}", norm(pp)):
+        raise ExtractError("janet_jdn_: refusal does not panic")
     util = csrc.strip_comments(csrc.read(tree, "src/core/util.c"))
     m = re.search(r"const\s+char\s+janet_base64\s*\[\s*65\s*\]\s*=\s*((?:\"[^\"]*\"\s*)+);", util)
     if not m:
@@ -269,5 +332,16 @@ def render(tree):
     L.append("abbrev insertRootTestByFrame : Bool := %s" % ("true" if c["insertRootTestByFrame"] else "false"))
     L.append("/-- does `contains_bad_chars` refuse symbols that read back as nil/true/false, a number, a keyword or nothing? -/")
     L.append("abbrev ppRefusesMisreadSymbols : Bool := %s" % ("true" if c["ppRefusesMisreadSymbols"] else "false"))
+    L.append("/-- `print_jdn_one` (pp.c): delimiters and separators of containers; `%j` default depth budget; refusal = panic -/")
+    L.append("abbrev ppTupleParen : Nat × Nat := (%d, %d)" % c["ppTupleParen"])
+    L.append("abbrev ppTupleBracket : Nat × Nat := (%d, %d)" % c["ppTupleBracket"])
+    L.append("abbrev ppArrayOpen : List Nat := [%s]" % ", ".join(str(x) for x in c["ppArrayOpen"]))
+    L.append("abbrev ppArrayClose : Nat := %d" % c["ppArrayClose"])
+    L.append("abbrev ppTableOpen : List Nat := [%s]" % ", ".join(str(x) for x in c["ppTableOpen"]))
+    L.append("abbrev ppStructOpen : List Nat := [%s]" % ", ".join(str(x) for x in c["ppStructOpen"]))
+    L.append("abbrev ppDictClose : Nat := %d" % c["ppDictClose"])
+    L.append("abbrev ppItemSep : Nat := %d" % c["ppItemSep"])
+    L.append("abbrev ppKvSep : Nat := %d" % c["ppKvSep"])
+    L.append("abbrev jdnDefaultDepth : Nat := %d" % c["jdnDefaultDepth"])
     L.append("\nend JanetModel.Gen.Parse")
     return "\n".join(L) + "\n"
